@@ -8,6 +8,7 @@ From Coq Require Import ZArith List Bool.
 From Cicada Require Import Model.Jobs Model.Term Proofs.TermProofs Proofs.JobsSpec Proofs.JobsInv Proofs.TermSim.
 From Cicada Require Import Model.WaitTerm Proofs.WaitTermProofs.
 From Cicada Require Model.WaitFg Proofs.WaitFgJobs.
+From Cicada Require Import Proofs.WaitResume.
 Import ListNotations.
 Local Open Scope Z_scope.
 
@@ -483,6 +484,99 @@ Theorem C07_waitfg_is_jobs_wait_loop : forall pids pl cc gid, ~ In 0 pids ->
     map WaitFgJobs.enc (Jobs.w_left (Jobs.wait_loop evs s gid pids pl cc settled status)).
 Proof. exact WaitFgJobs.waitfg_is_jobs. Qed.
 
+(** ---------- round 9, third part: the wait RESUMED after kernel actions (Proofs/WaitResume.v).
+    [okp pr]: the process is not plainly running: reaped, zombie, stopped, or running with its
+    continuation not yet reported by waitpid ([pnote = NCont], the one unreported change).
+    [WIst s]: in mode Waiting the settled set is duplicate-free, within the members, and every
+    pid in it has an [okp] process in [procs]. *)
+
+(** The invariant holds in EVERY reachable state of the session machine: through launches,
+    fg / bg / jobs, polls, keys, exits and signals of single processes, and every resumption of
+    a wait. No hypothesis. *)
+Theorem C07_settled_members_invariant : forall c acts, WIst (Term.run c acts).
+Proof. exact run_WI. Qed.
+Check C07_settled_members_invariant : forall c acts, WIst (Term.run c acts).
+
+(** every kernel action of the machine is a [kchange]: keeps pids, keeps [okp] *)
+Theorem C07_kernel_actions_kchange :
+  (forall pid sig, kchange (fun p => if ppid p =? pid then deliver sig p else p)) /\
+  (forall pid code, kchange (fun p => if ppid p =? pid then do_exit code p else p)) /\
+  (forall g sig, kchange (fun p => if ppgid p =? g then deliver sig p else p)).
+Proof.
+  split; [|split]; intros; apply cond_kchange; first [apply deliver_kchange|apply do_exit_kchange].
+Qed.
+
+(** A wait of a reachable state (any accumulated settled set and consumed statuses), resumed
+    after any kernel change [F] with ANY fuel: if [settle] comes back out of the loop, the owner
+    is the shell (when the terminal had been handed over) and every member of the job has an
+    [okp] process in [procs] -- or the loop broke on ECHILD and every process is reaped. *)
+Theorem C07_resumed_wait_returns_settled : forall c acts gid pids w v rest F fuel,
+  md (Term.run c acts) = Waiting gid pids w v rest -> kchange F ->
+  let s0 := Term.run c acts in
+  let s1 := settle c fuel (mkst (mkcore (map F (procs (k s0))) (shl (k s0)) []) (md s0) (owner s0) (smask s0) (gh s0) (wevs s0)) in
+  md s1 = Between rest ->
+  owner s1 = (if back v then c_sh c else owner s0) /\
+  ((forall p, In p pids -> has_okp (procs (k s1)) p) \/ all_gone (procs (k s1)) = true).
+Proof. exact resumed_wait_returns_settled. Qed.
+Check C07_resumed_wait_returns_settled : forall c acts gid pids w v rest F fuel,
+  md (Term.run c acts) = Waiting gid pids w v rest -> kchange F ->
+  let s0 := Term.run c acts in
+  let s1 := settle c fuel (mkst (mkcore (map F (procs (k s0))) (shl (k s0)) []) (md s0) (owner s0) (smask s0) (gh s0) (wevs s0)) in
+  md s1 = Between rest ->
+  owner s1 = (if back v then c_sh c else owner s0) /\
+  ((forall p, In p pids -> has_okp (procs (k s1)) p) \/ all_gone (procs (k s1)) = true).
+
+(** Session level, with C07_full_holds: with a tty, while a reachable state waits on job
+    [gid] the terminal is the job's; and at the moment the resumed wait comes back (mode
+    Between: the shell goes on with the line, then the prompt) the terminal is the shell's
+    (when handed over) and no member is plainly running. *)
+Theorem C07_terminal_follows_settledness : forall c acts gid pids w v rest F fuel,
+  tty c = true ->
+  md (Term.run c acts) = Waiting gid pids w v rest -> kchange F ->
+  let s0 := Term.run c acts in
+  let s1 := settle c fuel (mkst (mkcore (map F (procs (k s0))) (shl (k s0)) []) (md s0) (owner s0) (smask s0) (gh s0) (wevs s0)) in
+  owner s0 = gid /\
+  (md s1 = Between rest ->
+   owner s1 = (if back v then c_sh c else gid) /\
+   ((forall p, In p pids -> has_okp (procs (k s1)) p) \/ all_gone (procs (k s1)) = true)).
+Proof.
+  intros c acts gid pids w v rest F fuel T M K s0 s1.
+  assert (O : owner s0 = gid) by (eapply wait_owner; eauto).
+  split; [exact O|]. intros B. rewrite <- O. apply (resumed_wait_returns_settled c acts gid pids w v rest F fuel M K B).
+Qed.
+
+(** non-vacuity: the count_waited session (101 stopped, continued, exited: settled set [101],
+    102 runs, the job has the terminal); 102 exits: the wait comes back, owner 1 *)
+Example C07_resumed_nonvacuous :
+  let s0 := Term.run cfg0 w_count_waited in
+  let F := fun p => if ppid p =? 102 then do_exit 0 p else p in
+  let s1 := settle cfg0 3 (mkst (mkcore (map F (procs (k s0))) (shl (k s0)) []) (md s0) (owner s0) (smask s0) (gh s0) (wevs s0)) in
+  md s0 = Waiting 101 [101; 102] [101] (VLaunch true) [] /\ owner s0 = 101 /\ kchange F /\
+  md s1 = Between [] /\ owner s1 = 1 /\ map Term.pst (procs (k s1)) = [PGone; PGone].
+Proof.
+  split; [vm_compute; reflexivity|]. split; [vm_compute; reflexivity|].
+  split; [apply cond_kchange; apply do_exit_kchange|]. vm_compute. repeat split.
+Qed.
+
+(** WaitFg's [r_consumed]: statuses consumed + statuses C06's loop leaves = statuses delivered
+    (whatever the two status registers hold). *)
+Theorem C07_waitfg_consumed : forall pids pl cc gid evs s status status2 settled consumed side,
+  (WaitFg.r_consumed (WaitFg.wait_loop pids pl cc (map WaitFgJobs.enc evs) status settled consumed side) +
+   length (Jobs.w_left (Jobs.wait_loop evs s gid pids pl cc settled status2)) = consumed + length evs)%nat.
+Proof. exact WaitFgJobs.waitfg_consumed. Qed.
+
+(** WaitFg's error answers (kind 255, errno [v]; C06's model has none): after statuses on which
+    C06's loop is still blocked the loop breaks at the error; ECHILD keeps the status C06's loop
+    holds, any other errno becomes the status; the error is consumed, the rest is left. *)
+Theorem C07_waitfg_error_after_blocked : forall pids pl cc gid, ~ In 0 pids ->
+  forall evs s status settled consumed side p v post,
+  Jobs.w_blocked (Jobs.wait_loop evs s gid pids pl cc settled status) = true ->
+  let r := WaitFg.wait_loop pids pl cc (map WaitFgJobs.enc evs ++ (p, 255, v) :: post) status settled consumed side in
+  WaitFg.r_status r =
+    (if v =? WaitFg.ECHILD then Jobs.w_status (Jobs.wait_loop evs s gid pids pl cc settled status) else v) /\
+  WaitFg.r_left r = post /\ WaitFg.r_consumed r = (consumed + S (length evs))%nat.
+Proof. exact WaitFgJobs.waitfg_error_after_blocked. Qed.
+
 Print Assumptions C07_prompt_owner.
 Print Assumptions C07_owner_cases.
 Print Assumptions C07_bg_never_owner.
@@ -505,3 +599,9 @@ Print Assumptions C07_wait_o_is_jobs_wait_loop.
 Print Assumptions C07_wait_fg_o_is_jobs_wait_fg_job.
 Print Assumptions C07_wait_o_echild_is_jobs_blocked.
 Print Assumptions C07_waitfg_is_jobs_wait_loop.
+Print Assumptions C07_settled_members_invariant.
+Print Assumptions C07_resumed_wait_returns_settled.
+Print Assumptions C07_terminal_follows_settledness.
+Print Assumptions C07_kernel_actions_kchange.
+Print Assumptions C07_waitfg_consumed.
+Print Assumptions C07_waitfg_error_after_blocked.
